@@ -49,6 +49,24 @@ pub fn run(ctx: &Ctx) -> bool {
 pub fn tool(name: &str, args: &[String]) -> i32 {
     match name {
         "gen-golden" => c06::gen_golden(std::path::Path::new(args.first().map(|s| s.as_str()).unwrap_or("/verif/golden"))),
+        "gen-corpus" => {
+            // seed corpora for the libFuzzer targets (same constructions as the in-target tables)
+            let root = std::path::PathBuf::from(args.first().map(|s| s.as_str()).unwrap_or("/verif/corpus"));
+            let put = |t: &str, n: &str, d: &[u8]| { let dir = root.join(t); let _ = std::fs::create_dir_all(&dir); std::fs::write(dir.join(n), d).unwrap(); };
+            let key = crate::gen::key32(77, "fuzz-chunks-key");
+            let shapes: [&[usize]; 6] = [&[], &[5], &[3, 4], &[1, 1, 1], &[10, 20, 30, 5], &[65536, 7]];
+            for (i, lens) in shapes.iter().enumerate() { let plain = crate::gen::bytes_from(i as u64, lens.iter().sum()); put("chunks_raw", &format!("stream{}", i), &crate::kx::enc_chunks_chunked(&plain, lens, &key, &[], 65536).unwrap()); }
+            for i in 0..12u64 { put("keyfile_mut", &format!("prog{}", i), &crate::gen::bytes_from(i, 4 + (i as usize * 5) % 40)); }
+            for i in 0..4u64 { let (s, r) = (crate::kx::ident(i, "fuzz-S"), crate::kx::ident(0, "fuzz-R")); let f = crate::kx::key_encrypt_chunked(b"", &[], &s, &r.pk, &crate::gen::key32(i, "fe"), &crate::gen::key32(i, "fp")).unwrap(); put("noise_msg", &format!("msg{}", i), &f[4..132]); put("noise_msg", &format!("prefix{}", i), &f[4..4 + 40 + 20 * i as usize]); }
+            for i in 0..6u64 { let key = crate::gen::key32(i, "k"); let nonce = [i as u8; 12]; let aad = crate::gen::bytes_from(i, (i * 3) as usize); let m = crate::gen::bytes_from(i + 9, (i * 11) as usize); let mut d = key.to_vec(); d.extend_from_slice(&nonce); d.push(aad.len() as u8); d.extend_from_slice(&aad); d.extend_from_slice(&kspec::aead_seal(&key, &nonce, &aad, &m)); put("aead_open", &format!("valid{}", i), &d); }
+            put("keyring_parse", "repo", &std::fs::read("/verif/golden/repo/keyring.txt").unwrap_or_default());
+            put("keyring_parse", "tabs", b"\t[Key]\n\tName\t=\tx\n PublicKey = AAAA\n# c\n\n[Key]\nName = y\r\n");
+            let pk = kspec::encode_public_key(&kspec::x25519_base(&[3u8; 32])); let skl = kspec::lock_private_key_with(&[1u8; 32], &[2u8; 32], &[3u8; 32]);
+            put("keyring_parse", "two", format!("[Key]\nName = a\nPublicKey = {}\nPrivateKey = {}\n\n[Key]\nName = b\nPublicKey = {}\n", pk, skl, kspec::encode_public_key(&kspec::x25519_base(&[4u8; 32]))).as_bytes());
+            put("encoded_keys", "pk", pk.as_bytes()); put("encoded_keys", "sk", skl.as_bytes()); put("encoded_keys", "pk-bad-checksum", kspec::base64(&[7u8; 36]).as_bytes()); put("encoded_keys", "sk-bad-version", kspec::base64(&[7u8; 84]).as_bytes());
+            for i in 0..5u8 { put("scrypt_ffi", &format!("p{}", i), &[i, i + 1, i, 30 + i, 3, b'p', b'w', b'!', b's', b'a', b'l', b't']); }
+            println!("seed corpora written to {}", root.display()); 0
+        }
         "bench-cli" => {
             let n = 500; let t = std::time::Instant::now();
             for _ in 0..n { let sb = crate::cli::Sandbox::new(); sb.write("a", b"x"); sb.write("b", b"y"); sb.write("c", b"z"); }
